@@ -450,6 +450,7 @@ func cmdRun(args []string) int {
 				nUnconfirmed++
 				entry["status"] = "unconfirmed"
 				violOut = append(violOut, entry)
+				fmt.Printf("UNCONFIRMED property=%s sig=%s (%d paths): found by the engine's monitor / under a non-default schedule, not reproduced natively: %v\n", *prop, s, g.Count, entry["native_outcome"])
 				continue
 			}
 		} else if !confirms(c, r) {
